@@ -450,6 +450,23 @@ def poly_unique(pc, frac, out):
     return None
 
 
+def cases_from_replay(path):
+    """rebuild the case tuples from a replay file written by vf.Check.finish (failing_inputs[].case = variant + args)"""
+    import json
+    out = []
+    for f in json.load(open(path)).get("failing_inputs", []):
+        c = f.get("case") or {}
+        v, a = c.get("variant"), [int(x) for x in c.get("args", [])]
+        if v in VARIANTS:
+            op, nargs, mp, _ = VARIANTS[v]
+            out.append((v, op, a, mp(list(a)), None, "replay", "replay", None))
+        elif v and v.startswith("poly.") and len(a) >= 5:
+            nP = a[3]
+            P, M = a[4:4 + nP], a[5 + nP:]
+            out.append((v, v[:-1] if v.endswith("d") else v, a, a, None, "replay", "p=%d" % a[0], (a[0], a[1], a[2], P, M)))
+    return out
+
+
 def run_parallel(binary, lines, nproc, timeout=1500):
     """the extracted model computes on Coq's binary integers (slow on multi-limb moduli): run it on nproc
     interleaved slices of the case list at once and put the output lines back in order"""
@@ -492,7 +509,7 @@ def main(tier, replay=None):
     ]
     chk.assumptions = ["models hand-written after givratreconstruct.C and givpoly1ratrecon.inl; tie = correspondence on generated cases for every public call form",
                        "the `recurs` flag of Rational::ratrecon only controls std::cerr output and is not modelled",
-                       "RationalReconstruction(a,b,x,m,a_bound,b_bound) is modelled with the repair frag/C11.fix-1.diff (returns ratrecon(...) && b <= b_bound)"]
+                       "givaro defects repaired in /repo that this model follows: 5d1bca8 (residue f <= -m reduced with modin), 68125ac (6-argument RationalReconstruction returns ratrecon(...) && b <= b_bound)"]
     res = vf.coq_check_props(AREA)
     chk.proof_result(res, AREA)
     drv, l1 = vf.ocaml_build(AREA) if os.path.exists(os.path.join(vf.coq_dir(AREA), "ocaml", "model.ml")) else (None, "extraction did not run")
@@ -522,6 +539,9 @@ def main(tier, replay=None):
                             args = [p, dk, 1, len(P)] + P + [len(M)] + M
                             pcases.append((v, v, args, args, None, "exhaustive", "p=%d" % p, (p, dk, 1, P, M)))
     allc = [(v, op, ia, ma, frac, fc, mc, None) for (v, op, ia, ma, frac, fc, mc) in cases] + pcases
+    if replay:
+        allc = cases_from_replay(replay)
+        chk.notes.append("replay of %d cases from %s" % (len(allc), replay))
     impl_in = "".join("%s %s\n" % (c[0], " ".join(str(x) for x in c[2])) for c in allc)
     model_in = ["%s %s\n" % (c[1], " ".join(str(x) for x in c[3])) for c in allc]
     vf.log("C11: generation done %.1fs" % (time.time() - chk.t0))
